@@ -599,6 +599,9 @@ func (s *Serializer) Deserialize(src []byte, dst *ParsedJson) (*ParsedJson, erro
 				off++
 			}
 			nSkips = 0
+			if off == len(dst.Tape) {
+				return dst, errors.New("tags extended beyond tape")
+			}
 		}
 		switch tag {
 		case TagNop:
